@@ -576,6 +576,9 @@ func (e *Engine) tryStub(name string, fn *ssa.Function, args []Value, g *Term, p
 		if r, ok := e.concreteSprint(name, args); ok {
 			return r, true
 		}
+		if r, ok := e.hexSprintf(name, args); ok {
+			return r, true
+		}
 		return Poison{why: "fmt string"}, true
 	case "fmt.Println", "fmt.Printf", "fmt.Print", "fmt.Fprintf", "fmt.Fprintln":
 		e.StubsUsed[name]++
@@ -725,6 +728,29 @@ func (e *Engine) tryStub(name string, fn *ssa.Function, args []Value, g *Term, p
 		if r, ok := e.atomicOp(name[len("sync/atomic."):], args, g, pos); ok {
 			e.StubsUsed[name]++
 			return r, true
+		}
+	}
+	if strings.HasPrefix(name, "(*github.com/ferranbt/fastssz.HasherPool).") {
+		// pooled SSZ hasher: Get hands out a recording hasher (see pooledHasherMethod), Put is a no-op
+		e.StubsUsed[name+" (recording hasher: HashRoot = ideal collision-free function of the transcript of hasher calls)"]++
+		if strings.HasSuffix(name, ".Get") {
+			elem := sig.Results().At(0).Type().(*types.Pointer).Elem()
+			cell := newCell(elem, zero(elem))
+			if e.hashers == nil {
+				e.hashers = map[*Cell]*hashTranscript{}
+			}
+			e.hashers[cell] = &hashTranscript{g0: g}
+			return RefV{[]RefAlt{{TS.True, cell}}}, true
+		}
+		return nil, true
+	}
+	if strings.HasPrefix(name, "(*github.com/ferranbt/fastssz.Hasher).") {
+		if r, ok := args[0].(RefV); ok && len(r.alts) == 1 {
+			if c, ok := r.alts[0].o.(*Cell); ok {
+				if tr := e.hashers[c]; tr != nil {
+					return e.pooledHasherMethod(tr, name[len("(*github.com/ferranbt/fastssz.Hasher)."):], args[1:], g, pos), true
+				}
+			}
 		}
 	}
 	if strings.HasPrefix(name, "(*sync.Map).") {
@@ -1275,6 +1301,38 @@ func (e *Engine) syncMapOp(op string, fn *ssa.Function, args []Value, g *Term, p
 type hashTranscript struct {
 	shape strings.Builder
 	terms []*Term
+	nops  int
+	g0    *Term // guard under which the hasher was obtained (pooled hasher)
+}
+
+// pooledHasherMethod: a *ssz.Hasher obtained from ssz.DefaultHasherPool records the sequence of calls made on it (method
+// names in the shape, every argument as a term; Index() = number of calls so far, so Merkleize(indx) names the call
+// it folds back to). HashRoot returns an ideal hash of that transcript. The guard under which each call is made is recorded as an extra argument
+// (over-distinguishes, never identifies).
+func (e *Engine) pooledHasherMethod(tr *hashTranscript, name string, args []Value, g *Term, pos token.Pos) Value {
+	switch name {
+	case "Index":
+		return BV(64, uint64(tr.nops))
+	case "Reset", "FillUpTo32":
+		return nil
+	case "Hash":
+		return e.newSliceFrom(types.Typ[types.Uint8], nil)
+	case "HashRoot":
+		vals := make([]Value, len(tr.terms))
+		for i, t := range tr.terms {
+			vals[i] = t
+		}
+		h := e.hashApply("SSZROOT#"+tr.shape.String(), vals)
+		return TupleV{[]Value{hashToArray(h, 32), IfaceV{}}}
+	}
+	tr.nops++
+	tr.shape.WriteString(name + "(")
+	for _, a := range args {
+		e.flatten(a, &tr.shape, &tr.terms, 0)
+	}
+	tr.terms = append(tr.terms, g) // the guard of the call is part of the transcript (a call that does not happen hashes nothing)
+	tr.shape.WriteString(")")
+	return nil
 }
 
 func (e *Engine) hasherMethod(al IfaceAlt, name string, args []Value, g *Term, pos token.Pos) Value {
@@ -1329,6 +1387,69 @@ func (e *Engine) hashTreeRootByWalker(recv Value, recvT types.Type, g *Term, pos
 		vals[i] = t
 	}
 	return e.hashApply(tag, vals), true
+}
+
+// hexSprintf: fmt.Sprintf("%x" / "%#x", b) of a byte slice/array of concrete length and symbolic content is an opaque
+// string, injective in the bytes, of the known length.
+func (e *Engine) hexSprintf(name string, args []Value) (Value, bool) {
+	if name != "fmt.Sprintf" {
+		return nil, false
+	}
+	f, ok := concreteStr(args[0])
+	if !ok || (f != "%x" && f != "%#x") {
+		return nil, false
+	}
+	sl, ok := args[1].(SliceV)
+	if !ok {
+		return nil, false
+	}
+	elems, ok := e.sliceElems(sl)
+	if !ok || len(elems) != 1 {
+		return nil, false
+	}
+	iv, ok := elems[0].(IfaceV)
+	if !ok || len(iv.alts) != 1 || !iv.alts[0].c.IsTrue() {
+		return nil, false
+	}
+	var bs []Value
+	switch v := iv.alts[0].v.(type) {
+	case SliceV:
+		if bs, ok = e.sliceElems(v); !ok {
+			// length = ite(c, K, 0) (a value merged with the zero value of an error path): one alternative per length
+			if l := v.len; l.op == OpIte && l.args[1].IsConst() && l.args[2].IsConst() && l.args[2].val == 0 && l.args[1].val > 0 {
+				w := v
+				w.len = l.args[1]
+				if full, ok2 := e.sliceElems(w); ok2 {
+					sv := e.hexAtom(f, full)
+					return StringV{[]StrAlt{{c: l.args[0], atom: sv.alts[0].atom, alen: sv.alts[0].alen}, {c: Not(l.args[0]), s: ""}}}, true
+				}
+			}
+			return nil, false
+		}
+	case ArrayV:
+		bs = v.e
+	default:
+		return nil, false
+	}
+	for _, b := range bs {
+		if t, ok := b.(*Term); !ok || t.W != 8 {
+			return nil, false
+		}
+	}
+	if len(bs) == 0 {
+		return Str(""), true
+	}
+	return e.hexAtom(f, bs), true
+}
+
+func (e *Engine) hexAtom(f string, bs []Value) StringV {
+	sv := e.atomString("hex"+f, bs)
+	n := 2 * len(bs)
+	if f == "%#x" {
+		n += 2
+	}
+	sv.alts[0].alen = BV(64, uint64(n))
+	return sv
 }
 
 // concreteSprint evaluates fmt.Sprint* when every operand is concrete (ints, strings, byte slices, bools).
